@@ -242,7 +242,7 @@ func checkC07(tier string) int {
 		if i%3 == 2 {
 			fr = 0
 		}
-		params := world.Params{Frankenstein: fr, NumCandidates: 2, NumEthUsers: 3, TopValidators: 5, ChainID: fmt.Sprintf("OneLedger-c07-%d", hseed)}
+		params := world.Params{Frankenstein: fr, NumCandidates: 4, NumEthUsers: 3, TopValidators: 5, ChainID: fmt.Sprintf("OneLedger-c07-%d", hseed)}
 		w0, _ := world.New(params)
 		irng := rand.New(rand.NewSource(hseed * 13))
 		cfg := drive.Cfg{Tag: "c07", Seed: hseed, Blocks: blocks, Params: params, Scripts: allScripts, Scout: true, Jumps: true, Honest: true}
@@ -284,8 +284,23 @@ func checkC07(tier string) int {
 					}
 				}
 			}
+			// ... and stake transactions of validators that do not exist yet (they stay check-only here)
+			var newcomers [][]byte
+			for _, nv := range w0.Vals {
+				if !nv.InGenesis && gen.StakeOf(run.State, nv.ValAddr).Sign() == 0 {
+					inj++
+					newcomers = append(newcomers, txb.Tx(gen.StakeMsg(nv, fmt.Sprint(w0.P.MinSelfDelegation+int64(inj%7))), txb.DefaultFee(), fmt.Sprintf("c07-newcomer-%d-%d", hseed, inj), &nv.Stake, gen.ConsAccount(nv)))
+				}
+			}
+			cands = append(cands, newcomers...)
 			if len(cands) == 0 {
 				return &alt
+			}
+			if len(newcomers) > 0 && !concurrent && h%3 != 0 {
+				b := []string{"after:BeginBlock", "before:EndBlock"}[int(h/3)%2]
+				alt.Inject[b] = append(alt.Inject[b], newcomers[int(h)%len(newcomers)])
+				used = append(used, b)
+				r.Count("injected_newcomer_stake", 1)
 			}
 			if concurrent {
 				n := 3 + irng.Intn(6)
@@ -348,7 +363,7 @@ func checkC07(tier string) int {
 				bseen[classOfBoundary(b)] = true
 				bmu.Unlock()
 			}
-			a, b := hist.Project(blk.Resp[0].Calls), hist.Project(blk.Resp[1].Calls)
+			a, b := hist.ProjectResults(blk.Resp[0].Calls), hist.ProjectResults(blk.Resp[1].Calls)
 			if idx, x, y := hist.FirstDiff(a, b); idx >= 0 {
 				method := strings.SplitN(x+" ", " ", 2)[0]
 				sig := "C07/" + strings.ToLower(method)
